@@ -305,6 +305,15 @@ impl Property for C06 {
             for n in ["status", "_", "__", "_status", "status_", "a_b_c", "Z", "zz_", "playlistinfo", "PlayListInfo"] {
                 names.push(n.to_string());
             }
+            // non-ASCII characters inside a name: all of U+0080..U+07FF, then every 61st scalar value
+            let mut cp = 0x80u32;
+            while cp <= 0x10ffff {
+                if let Some(ch) = char::from_u32(cp) {
+                    names.push(format!("a{}b", ch));
+                    acc.inc("non_ascii_names_tried");
+                }
+                cp += if cp < 0x800 { 1 } else { 61 };
+            }
             for n in names {
                 acc.inc("names_tried");
                 if Command::build(&n).is_ok() {
@@ -341,7 +350,7 @@ impl Property for C06 {
     fn meta(&self, _cfg: &Cfg, _acc: &Acc) -> Meta {
         Meta {
             level: "exploration",
-            rule: "EXHAUSTIVE: all 4369 strings of length <=3 over one representative per character class (lower, upper, digit, space, tab, CR, 0x01, 0x0B, 0x1F, double quote, single quote, backslash, NUL, 2/3/4-byte UTF-8), each as single argument, first/middle/last of three and before/after an empty argument, through &str/String/&String/Cow::Borrowed/Cow::Owned; all ASCII names of length <=2 accepted by build; plus random commands with 0-12 arguments of up to 200 bytes; the bytes written by Connection::send (and AsyncConnection::send with 7-byte write granularity, and the inner line of a rendered list) are tokenised by the MPD tokenizer port and must give back name and arguments byte for byte; failing commands are attributed argument by argument to known-finding classes (input predicate + failure mode) and must round-trip once those arguments are neutralised; non-trivial = argument containing a blank/control/quote/backslash/non-ASCII byte or empty; distinct by argument string".into(),
+            rule: "EXHAUSTIVE: all 4369 strings of length <=3 over one representative per character class (lower, upper, digit, space, tab, CR, 0x01, 0x0B, 0x1F, double quote, single quote, backslash, NUL, 2/3/4-byte UTF-8), each as single argument, first/middle/last of three and before/after an empty argument, through &str/String/&String/Cow::Borrowed/Cow::Owned; all ASCII names of length <=2 accepted by build, names with a non-ASCII character (all of U+0080..U+07FF, every 61st scalar value above) in case build accepts one; plus random commands with 0-12 arguments of up to 200 bytes; the bytes written by Connection::send (and AsyncConnection::send with 7-byte write granularity, and the inner line of a rendered list) are tokenised by the MPD tokenizer port and must give back name and arguments byte for byte; failing commands are attributed argument by argument to known-finding classes (input predicate + failure mode) and must round-trip once those arguments are neutralised; non-trivial = argument containing a blank/control/quote/backslash/non-ASCII byte or empty; distinct by argument string".into(),
             nontrivial_set: "nontrivial",
             assumptions: vec![
                 "MPD tokenizer port (util/Tokenizer.cxx + ClientRead line handling) is the trusted base; self-tested at start-up against the protocol document's escaping example".into(),
